@@ -54,6 +54,7 @@ TRACE_D = 3
 CALL_LIMIT = 60
 
 T, S_, U, V = sp.symbols("t_par s_par u_par v_par", real=True)
+TP = sp.Symbol("tp_par", positive=True)       # a parameter that only runs over positive values
 CART = []
 CURV = {}
 
@@ -169,7 +170,8 @@ def ell_surface(reg, variant, planar2d):
 
 def _edges(corners, h, variant, planar2d):
     tt, lim = {"std": (T, (T, 0, 1)), "retime": (2 * T, (T, 0, sp.Rational(1, 2))), "shift": (T - 1, (T, 1, 2)),
-               "rev": (T, (T, 0, 1)), "swapped": (T, (T, 1, 0)), "mixed": (T, (T, 0, 1))}[variant]
+               "rev": (T, (T, 0, 1)), "swapped": (T, (T, 1, 0)), "mixed": (T, (T, 0, 1)),
+               "speed": (TP ** 2, (TP, 0, 1))}[variant]          # varying speed: |dr/dt| = 2 t * length
     out = []
     for i, ((ax, ay), (bx, by)) in enumerate(zip(corners[:-1], corners[1:])):
         lim_i = lim
@@ -320,6 +322,33 @@ def _value(v):
     return fc.rat(v["q"]) + fc.rat(v["p"]) * pi
 
 
+def _disarm():
+    """Make sure no alarm of common.time_limit is left armed or pending (its repeating timer can fire once more while
+    the with-block is being left, which would raise HardTimeout at an arbitrary later point)."""
+    import signal
+    import time
+    for _ in range(10):
+        try:
+            signal.setitimer(signal.ITIMER_REAL, 0, 0)
+            time.sleep(0)          # a pending handler runs here, inside the try
+            return
+        except HardTimeout:
+            continue
+
+
+def _guarded(fn, limit):
+    """("ok", value) or ("timeout", None); a HardTimeout never escapes."""
+    try:
+        try:
+            with time_limit(limit):
+                return "ok", fn()
+        finally:
+            _disarm()
+    except HardTimeout:
+        _disarm()
+        return "timeout", None
+
+
 def _run(out, lib, fnclass, comps, reg, variant, rev, expected, thunks, name=None):
     """thunks: callables each returning one library result; the value of the call is their sum."""
     name = name or fc.field_name(comps)
@@ -327,31 +356,40 @@ def _run(out, lib, fnclass, comps, reg, variant, rev, expected, thunks, name=Non
     total = sp.S.Zero
     for th in thunks:
         out.calls += 1
-        try:
-            with time_limit(CALL_LIMIT):
-                res = sp.sympify(th())
-        except HardTimeout:
+        status, res = _guarded(lambda th=th: sp.sympify(th()), CALL_LIMIT)
+        if status == "timeout":
             out.verdicts.append(("outside", key, f"{lib} timed out after {CALL_LIMIT} s"))
             return
         total = total + res
     exp = _value(expected)
     rec = {"fn": fnclass, "comps": comps, "reg": reg, "rev": 1 if rev else 0, "num": 1, "q": [0, 1], "p": [0, 1],
            "key": key, "lib": lib, "variant": variant}
-    if total.free_symbols:
+    # the 'number' clause first: coordinate / parameter symbols, or anything that is not a finite number
+    if total.free_symbols or total.has(sp.Integral, sp.nan, sp.zoo, sp.oo, -sp.oo):
         rec["num"] = 0
         out.records.append(rec)
-        out.verdicts.append(("violation", key, f"variant {variant}: result is not a number: {total} "
+        out.verdicts.append(("violation", key, f"variant {variant}: result is not a number: {str(total)[:300]} "
                                                f"(required {exp})"))
         return
-    qp = fc.split_pi(total)
-    if qp is None or fc.pair_of(qp[0]) is None or fc.pair_of(qp[1]) is None:
-        diff = abs(complex(sp.N(total - exp, 40)))
-        if diff < 1e-25:
+
+    def decide():
+        qp = fc.split_pi(total)
+        if qp is None or fc.pair_of(qp[0]) is None or fc.pair_of(qp[1]) is None:
+            diff = abs(complex(sp.N(total - exp, 40)))
+            return ("num", diff < 1e-25)
+        return ("exact", qp)
+    status, res = _guarded(decide, 30)
+    if status == "timeout":
+        out.verdicts.append(("outside", key, "result is a number that could not be reduced within 30 s"))
+        return
+    if res[0] == "num":
+        if res[1]:
             out.verdicts.append(("outside", key, "result is a number equal to the model's value numerically, "
                                                  "but not reduced to rational + rational*pi"))
         else:
-            out.verdicts.append(("violation", key, f"variant {variant}: result {total}, required {exp}"))
+            out.verdicts.append(("violation", key, f"variant {variant}: result {str(total)[:300]}, required {exp}"))
         return
+    qp = res[1]
     rec["q"], rec["p"] = fc.pair_of(qp[0]), fc.pair_of(qp[1])
     out.records.append(rec)
     if sp.expand(total - exp) != 0:
@@ -399,7 +437,7 @@ def replay_case(case):
                       "tri": (tri_edges, tri_surface)}[reg["k"]]
     extra = ("direct",) if reg["k"] == "tri" else ()
     # circulation: along the curve, and from the curl over a surface spanned by it
-    more = ("minus_pi_pi", "halves", "rational") if reg["k"] == "ell" else ()
+    more = ("minus_pi_pi", "halves", "rational") if reg["k"] == "ell" else ("speed",)
     for variant in ("std", "retime", "shift", "rev", "swapped", "mixed") + more:
         exp = case["circrev"] if variant in REV_VARIANTS else case["circ"]
         planar2d = in_plane0 and variant in ("std", "rev", "mixed")        # two-component trajectories where possible
@@ -428,7 +466,7 @@ def replay_case(case):
         field2 = make_field(comps2)
         # (the rational parametrisation is left out here: the unit normal of a rationally parametrised ellipse
         #  makes SymPy's integration hang)
-        for variant in ("std", "retime", "rev", "swapped", "mixed") + more[:2]:
+        for variant in ("std", "retime", "rev", "swapped", "mixed") + (more[:2] if reg["k"] == "ell" else more):
             exp = case["flux2rev"] if variant in REV_VARIANTS else case["flux2"]
             _run(out, "flux_across_curve", "flux2", comps2, reg, variant, variant in REV_VARIANTS, exp,
                  [lambda tr=tr, lim=lim: an.flux_across_curve(field2, tr, lim)
@@ -533,15 +571,18 @@ def replay_trig(case):
         total = sp.S.Zero
         for th in thunks:
             out.calls += 1
-            try:
-                with time_limit(CALL_LIMIT):
-                    total = total + sp.sympify(th())
-            except HardTimeout:
+            status, res = _guarded(lambda th=th: sp.sympify(th()), CALL_LIMIT)
+            if status == "timeout":
                 out.verdicts.append(("outside", key, f"{lib} timed out after {CALL_LIMIT} s (trigonometric field)"))
                 return
-        if total.free_symbols:
-            out.verdicts.append(("violation", key, f"variant {variant}: result is not a number: {total}"))
-        elif abs(complex(sp.N(total - required, 40))) > 1e-25:
+            total = total + res
+        if total.free_symbols or total.has(sp.Integral, sp.nan, sp.zoo):
+            out.verdicts.append(("violation", key, f"variant {variant}: result is not a number: {str(total)[:300]}"))
+            return
+        status, differs = _guarded(lambda: abs(complex(sp.N(total - required, 40))) > 1e-25, 30)
+        if status == "timeout":
+            out.verdicts.append(("outside", key, "numeric comparison timed out (trigonometric field)"))
+        elif differs:
             out.verdicts.append(("violation", key, f"variant {variant}: result {total}, required {required}"))
 
     if reg["k"] == "box":
